@@ -37,12 +37,17 @@
   codes (`diff_empty_hash`), which with the optimality of the golcs common sequence (`LOpt`, from
   `lcs_optimal`) shows that the sub-diff of two compatible containers that are not common elements is
   never empty (so the after-context of the accumulated hunk is the element itself); the main
-  induction `diff_correct`.
+  induction `diff_correct`. The sub-diff of two compatible containers passes through `Jd.subAfter`
+  (the end block of Go's `diffRest`: a wholesale replacement with nothing accumulated receives the
+  TRUE next element, or the array end, as after-context): `applyStrict_idx_replace_after`,
+  `applyStrictAll_idx_frame_subAfter` (the strict splice checks that context and it holds),
+  `subAfter_diffNode_cases` (identity except for a typed `jsonList` against a plain `jsonArray`).
 -/
 import JdModel
 import JdSpec
 import JdProofs.EqualsList
 import JdProofs.LcsProofs
+import JdProofs.SubAfter
 
 namespace Jd.DPL
 open Jd Jd.Spec
@@ -80,7 +85,7 @@ theorem diffRest_cons (o : Opts) (p : Path) (k s : Nat) (prev x y : Json) (a' b'
       else if sameContainerType o x y then
         accHunk p s prev R A
             (if (diffNode o false x y (p ++ [.idx k])).isEmpty then a'.headD .void else x) ++
-          diffNode o false x y (p ++ [.idx k]) ++
+          subAfter p (R.isEmpty && A.isEmpty) (a'.headD .void) (diffNode o false x y (p ++ [.idx k])) ++
           diffRest o p (k + 1) (k + 1) y a' b' c [] []
       else diffRest o p (k + 1) s prev a' b' c (R ++ [x]) (A ++ [y]) := by
   rw [diffRest.eq_def]
@@ -304,6 +309,10 @@ theorem accHunk_shift (p q : Path) (s : Nat) (prev : Json) (R A : List Json) (af
   unfold accHunk
   split <;> simp [shiftHunk]
 
+theorem subAfter_shift (p q : Path) (n : Bool) (x : Json) (D : Diff) :
+    subAfter (p ++ q) n x (D.map (shiftHunk p)) = (subAfter q n x D).map (shiftHunk p) :=
+  subAfter_map_prefix p q n x D
+
 theorem diffCommon_shift (p q : Path) (a b : Json) :
     diffCommon false a b (p ++ q) = (diffCommon false a b q).map (shiftHunk p) := by
   unfold diffCommon
@@ -364,7 +373,7 @@ theorem diff_shift (o : Opts) (ho : dispatchTag o = .list) :
   · intro k s prev c R A x a' y b' _ _ hA hB hs ihN ihR p q
     rw [diffRest_cons, diffRest_cons]
     simp only [hA, hB, hs, Bool.false_and, Bool.false_eq_true, if_false, if_true, ihR,
-      List.map_append, accHunk_shift, List.append_assoc, ihN, List.isEmpty_map]
+      List.map_append, accHunk_shift, List.append_assoc, ihN, List.isEmpty_map, subAfter_shift]
   · intro k s prev c R A x a' y b' _ _ hA hB hs ih p q
     rw [diffRest_cons, diffRest_cons]
     simp only [hA, hB, hs, Bool.false_and, Bool.false_eq_true, if_false, ih]
@@ -1259,6 +1268,96 @@ theorem applyStrictAll_idx_frame (D : Diff) (hD : ∀ h ∈ D, (frameOK h)) :
       rw [h', List.set_set]
 
 
+/-- a hunk that replaces the element as a whole, moved below the index AND given the after-context
+    `nx` (what `subAfter` does): the splice at that index checks `nx` against the element that follows -/
+theorem applyStrict_idx_replace_after (t : Tag) (l : List Json) (k : Nat) (x : Json)
+    (hx : l[k]? = some x) (h : Hunk) (hb : h.before = [])
+    (hr : h.remove.length = 1) (hadd : h.add.length = 1) (nx : Json)
+    (hn : AfterOK (l.drop (k + 1)) nx) :
+    applyStrict (.arr t l) [.idx (k : Int)] { h with after := [nx] } =
+      (applyStrict x [] h).map (fun v => .arr .raw (l.set k v)) := by
+  have hk : k < l.length := by
+    rcases Nat.lt_or_ge k l.length with h | h
+    · exact h
+    · rw [List.getElem?_eq_none h] at hx; cases hx
+  obtain ⟨x', hx'⟩ : ∃ x', h.remove = [x'] := by
+    cases hrm : h.remove with
+    | nil => simp [hrm] at hr
+    | cons x' r' => cases r' with
+      | nil => exact ⟨x', rfl⟩
+      | cons _ _ => simp [hrm] at hr
+  obtain ⟨y', hy'⟩ : ∃ y', h.add = [y'] := by
+    cases hrm : h.add with
+    | nil => simp [hrm] at hadd
+    | cons x' r' => cases r' with
+      | nil => exact ⟨x', rfl⟩
+      | cons _ _ => simp [hrm] at hadd
+  have hdrop : l.drop k = x :: l.drop (k + 1) := by
+    rw [List.drop_eq_getElem_cons hk]
+    congr 1
+    rw [List.getElem?_eq_getElem hk] at hx
+    exact Option.some.inj hx
+  have h7 : afterOk (l.drop (k + 1)) 0 [nx] = true := by
+    simp only [afterOk, Bool.and_true]
+    unfold AfterOK at hn
+    cases hpost : l.drop (k + 1) with
+    | nil => rw [hpost] at hn; simp at hn; simp [hn]
+    | cons z post' => rw [hpost] at hn; simp at hn; simp [hn]
+  simp only [applyStrict, splice, hb, hx', hy', List.length_cons, List.length_nil,
+    beforeOk, single, Json.singleValue]
+  have h1 : ((k : Int) == -1) = false := by
+    simp only [beq_eq_false_iff_ne, ne_eq]; omega
+  have h2 : ((k : Int) < 0 || (k : Int) > (l.length : Int)) = false := by
+    simp only [Bool.or_eq_false_iff, decide_eq_false_iff_not]; omega
+  simp only [h1, h2, Bool.false_eq_true, if_false, Int.toNat_natCast, hdrop, prefixEq,
+    Bool.and_true]
+  have hpost : (x :: l.drop (k + 1)).drop (0 + 1) = l.drop (k + 1) := by simp
+  rw [hpost, h7]
+  have hset : l.set k y' = l.take k ++ [y'] ++ l.drop (k + 1) := by
+    rw [List.set_eq_take_append_cons_drop, if_pos hk]
+    simp
+  split <;> simp_all
+
+/-- `applyStrictAll_idx_frame` through `subAfter`: the sub-diff of an element, moved below its index
+    and passed through `subAfter` with the TRUE next element (or the array end) as after-context -/
+theorem applyStrictAll_idx_frame_subAfter (D : Diff) (hD : ∀ h ∈ D, (frameOK h))
+    (t : Tag) (l : List Json) (k : Nat) (x : Json) (hx : l[k]? = some x)
+    (r : Json) (hr : applyStrictAll x D = some r) (n : Bool) (nx : Json)
+    (hn : AfterOK (l.drop (k + 1)) nx) :
+    ∃ t', (t' = t ∨ t' = .raw) ∧
+      applyStrictAll (.arr t l) (subAfter [] n nx (D.map (shiftHunk [.idx (k : Int)]))) =
+      some (.arr t' (l.set k r)) := by
+  rcases subAfter_cases [] n nx (D.map (shiftHunk [.idx (k : Int)])) with e | ⟨h, hsub, hfire, e⟩
+  · rw [e]
+    exact applyStrictAll_idx_frame D hD t l k x hx r hr
+  · rw [e]
+    match D, hsub, hD, hr with
+    | [h0], hsub, hD, hr =>
+      simp only [List.map_cons, List.map_nil, List.cons.injEq, and_true] at hsub
+      subst hsub
+      simp only [subAfterFires, shiftHunk, List.length_append, List.length_cons, List.length_nil,
+        Bool.and_eq_true, decide_eq_true_eq] at hfire
+      have hp0 : h0.path = [] := List.eq_nil_of_length_eq_zero (by omega)
+      rcases hD h0 List.mem_cons_self with hne | ⟨hb, _, hrm, hadd⟩
+      · exact absurd hp0 hne
+      · refine ⟨.raw, .inr rfl, ?_⟩
+        simp only [applyStrictAll, hp0] at hr
+        cases hv : applyStrict x [] h0 with
+        | none => rw [hv] at hr; cases hr
+        | some v =>
+          rw [hv] at hr
+          simp only [Option.bind_some, Option.some.injEq] at hr
+          subst hr
+          have := applyStrict_idx_replace_after t l k x hx h0 hb hrm hadd nx hn
+          rw [hv] at this
+          simp only [applyStrictAll, shiftHunk, hp0, List.append_nil]
+          have e2 : applyStrict (.arr t l) [.idx (k : Int)]
+              { h0 with path := [.idx (k : Int)], after := [nx] } =
+              applyStrict (.arr t l) [.idx (k : Int)] { h0 with after := [nx] } :=
+            applyStrict_path_irrel _ _ _ { h0 with after := [nx] }
+          rw [e2, this]
+          rfl
+
 /-- the member update performed by a hunk below an object key -/
 def aput (k : String) (v : Json) (cur : List (String × Json)) : List (String × Json) :=
   if v.isVoid then aerase k cur else ainsert k v cur
@@ -1610,7 +1709,8 @@ theorem diff_empty_hash (o : Opts) (ho : dispatchTag o = .list) {S T : List Json
       List.append_eq_nil_iff] at h
     have h1 := accHunk_eq_nil h.1.1
     have h2 := ihR (sub_cons hS).2 (sub_cons hT).2 (goodL_cons.1 ha).2 (goodL_cons.1 hb).2 p h.2
-    have h3 := ihN (sub_cons hS).1 (sub_cons hT).1 (goodL_cons.1 ha).1 (goodL_cons.1 hb).1 _ h.1.2
+    have h3 := ihN (sub_cons hS).1 (sub_cons hT).1 (goodL_cons.1 ha).1 (goodL_cons.1 hb).1 _
+      ((subAfter_eq_nil_iff _ _ _ _).1 h.1.2)
     refine ⟨h1.1, h1.2, ?_⟩
     simp only [hashList, h3, h2.2.2]
   · intro k s prev c R A x a' y b' _ _ hA hB hs ih hS hT ha hb p h
@@ -1726,7 +1826,9 @@ theorem diff_frameOK (o : Opts) (ho : dispatchTag o = .list) :
     rcases hm with (hm | hm) | hm
     · exact accHunk_path_ne_nil hm
     · rw [diffNode_at o ho x y hl.1 hl'.1] at hm
-      exact shift_path_ne_nil _ hm
+      obtain ⟨h0, hm0, hp0, _⟩ := mem_subAfter' hm
+      rw [hp0]
+      exact shift_path_ne_nil _ hm0
     · exact ihR h hm
   · intro k s prev c R A x a' y b' _ _ hA hB hs ih h hm
     rw [diffRest_cons] at hm
@@ -1735,6 +1837,77 @@ theorem diff_frameOK (o : Opts) (ho : dispatchTag o = .list) :
 
 
 
+
+/-! ### 8b. what `subAfter` does to the sub-diff of two same-kind containers (list documents) -/
+
+/-- two same-kind containers (list documents) are a typed `jsonList` against a plain `jsonArray`, or
+    every hunk of their sub-diff is addressed strictly inside them -/
+theorem mixed_or_paths_ne_nil (o : Opts) (ho : dispatchTag o = .list) {x y : Json}
+    (hx : x.listDoc = true) (hy : y.listDoc = true) (hs : sameContainerType o x y = true) :
+    (∃ xs ys, x = .arr .list xs ∧ y = .arr .raw ys) ∨ ∀ h ∈ diffNode o false x y [], h.path ≠ [] := by
+  cases x with
+  | obj kvs =>
+    cases y with
+    | obj kvs' =>
+      right
+      intro h hm
+      simp only [Json.listDoc] at hx hy
+      rw [diffNode_obj_obj, List.mem_append] at hm
+      rcases hm with hm | hm
+      · exact (diff_frameOK o ho).2.1 kvs' kvs hy hx h hm
+      · obtain ⟨kv, _, rfl⟩ := List.mem_map.1 hm
+        simp
+    | arr t ys => cases t <;> simp [sameContainerType, Json.dispatch] at hs
+    | _ => simp [sameContainerType, Json.dispatch] at hs
+  | arr t xs =>
+    cases y with
+    | arr t' ys =>
+      simp only [Json.listDoc, Bool.and_eq_true] at hx hy
+      by_cases htt : t = .raw ∨ t' = .list
+      · right
+        intro h hm
+        rw [diffNode_arr_arr ho xs ys hx.1 hy.1 htt] at hm
+        exact (diff_frameOK o ho).2.2 _ _ _ xs ys _ _ _ hx.2 hy.2 h hm
+      · left
+        have h1 := hx.1; have h2 := hy.1
+        have : t = .list ∧ t' = .raw := by cases t <;> cases t' <;> simp_all
+        exact ⟨xs, ys, by rw [this.1], by rw [this.2]⟩
+    | _ => cases t <;> simp [sameContainerType, Json.dispatch] at hs
+  | _ => simp [sameContainerType, Json.dispatch] at hs
+
+/-- **`subAfter` on the sub-diff of two same-kind containers** (list documents): it is the identity,
+    except for a typed `jsonList` against a plain `jsonArray` with nothing accumulated, where the one
+    wholesale hunk receives the after-context -/
+theorem subAfter_diffNode_cases (o : Opts) (ho : dispatchTag o = .list) {x y : Json}
+    (hx : x.listDoc = true) (hy : y.listDoc = true) (hs : sameContainerType o x y = true)
+    (p : Path) (k : Int) (n : Bool) (nx : Json) :
+    subAfter p n nx (diffNode o false x y (p ++ [.idx k])) = diffNode o false x y (p ++ [.idx k]) ∨
+    (n = true ∧ ∃ xs ys, x = .arr .list xs ∧ y = .arr .raw ys ∧
+      diffNode o false x y (p ++ [.idx k]) =
+        [{ path := p ++ [.idx k], remove := [.arr .list xs], add := [.arr .raw ys] }] ∧
+      subAfter p n nx (diffNode o false x y (p ++ [.idx k])) =
+        [{ path := p ++ [.idx k], remove := [.arr .list xs], add := [.arr .raw ys], after := [nx] }]) := by
+  rcases mixed_or_paths_ne_nil o ho hx hy hs with ⟨xs, ys, rfl, rfl⟩ | hne
+  · have e := diffNode_arr_other ho (t := .list) xs (.arr .raw ys) rfl (.inr ⟨rfl, ys, rfl⟩)
+      (p ++ [.idx k])
+    cases n with
+    | false => left; exact subAfter_false _ _ _
+    | true =>
+      right
+      refine ⟨rfl, xs, ys, rfl, rfl, ?_, ?_⟩
+      · rw [e]; simp [Json.nodeList, Json.isVoid]
+      · rw [e, subAfter_single]
+        simp [subAfterFires, Json.nodeList, Json.isVoid]
+  · left
+    apply subAfter_of_paths
+    intro h hm
+    have e := (diff_shift o ho).1 x y hx hy (p ++ [.idx k]) []
+    rw [List.append_nil] at e
+    rw [e] at hm
+    obtain ⟨h0, hm0, rfl⟩ := List.mem_map.1 hm
+    have := List.length_pos_iff.2 (hne h0 hm0)
+    simp only [shiftHunk, List.length_append, List.length_singleton]
+    omega
 
 /-! ## 9. objects: the member hunks -/
 
@@ -2175,8 +2348,17 @@ theorem diff_correct (L : FloatLaws) (o : Opts) (ho : dispatchTag o = .list) {S 
     simp only [hemp, Bool.false_eq_true, if_false]
     obtain ⟨t1, ht1, h1⟩ := apply_accHunk L t pre R A (x :: a') prev x hR hp
       (AfterOK.cons x a' x (specEq_refl L ha'.1))
-    obtain ⟨t2, ht2, h2⟩ := applyStrictAll_idx_frame _ hframe t1 (pre ++ A ++ x :: a') k x
+    have hnext : AfterOK ((pre ++ A ++ x :: a').drop (k + 1)) (a'.headD .void) := by
+      have e : (pre ++ A ++ x :: a').drop (k + 1) = a' := by
+        have e1 : pre ++ A ++ x :: a' = (pre ++ A ++ [x]) ++ a' := by simp
+        rw [e1, List.drop_left' (by simp [hk]; omega)]
+      rw [e]
+      cases a' with
+      | nil => exact AfterOK.nil
+      | cons z a'' => exact AfterOK.cons z a'' z (specEq_refl L (goodL_cons.1 ha'.2).1)
+    obtain ⟨t2, ht2, h2⟩ := applyStrictAll_idx_frame_subAfter _ hframe t1 (pre ++ A ++ x :: a') k x
       (by rw [hk, ← List.length_append]; exact getElem?_mid _ _ _) r hr
+      (R.isEmpty && A.isEmpty) (a'.headD .void) hnext
     have hset : (pre ++ A ++ x :: a').set k r = pre ++ A ++ r :: a' := by
       rw [hk, ← List.length_append]; exact set_mid _ _ _ _
     rw [hset] at h2
